@@ -60,7 +60,7 @@ def finalize(m: dict, tier: str) -> list[str]:
     need_stats = ["nonce:success", "nonce:refused-after-use", "nonce:psbt-partial_sign:success", "signer:dsa:signed", "signer:ssa:signed",
                   "signer:software:signed", "signer:refused-when-dead", "wallet:next_address", "wallet:address", "wallet:kind:BIP32KeyWallet",
                   "wallet:kind:DescriptorWallet", "wallet:kind:ScriptWallet", "wallet:kind:KeyWallet", "independence:after-cache-clear",
-                  "independence:after-cache-overflow", "independence:backend-switched", "cache:hit:_cached_base58_decode",
+                  "independence:after-cache-overflow", "independence:backend-switched", "independence:after-the-caller-edited-an-answer", "cache:hit:_cached_base58_decode",
                   "cache:miss:_cached_base58_decode", "cache:hit:_cached_fixed_base_multiples", "cache:miss:_cached_fixed_base_multiples"]
     for k in need_stats:
         if not s.get(k):
@@ -538,6 +538,18 @@ def build_battery(seed: int):
             ("taproot", lambda Pt=Pt: taproot.output_pubkey_from_merkle_root(Pt[0].to_bytes(32, "big"), H("r"))),
             ("bip39", lambda i=i: bip39.mnemonic_from_entropy(H("e", i)[:16], ("en", "it", "es", "fr")[i % 4])),
         ]
+    # answers that are mutable containers: what a caller does to its own copy must not reach the next caller
+    from btclib.bip32 import der_path as dp
+    from btclib.script import script as sc
+
+    for i, text in enumerate(("m/84h/0h/0h/0/5", "m/44'/0'/1'/1/2147483647", "m/0H/1/2H", f"m/{seed % 1000}h/7", "m")):
+        battery += [("der_path.indexes", lambda text=text: dp.indexes_from_der_path(text)),
+                    ("der_path.indexes-of-ints", lambda i=i: dp.indexes_from_der_path([i, 2**31 + i, 5])),
+                    ("derive-by-text", lambda text=text: bip32.derive(root, text))]
+        if hasattr(dp, "hardenings_from_der_path"):
+            battery.append(("der_path.hardenings", lambda text=text: dp.hardenings_from_der_path(text)))
+    for raw in (b"\x76\xa9\x14" + bytes(20) + b"\x88\xac", b"\x51\x20" + bytes(range(32)), b"\x00\x63\x51\x67\x52\x68", b""):
+        battery.append(("script.parse", lambda raw=raw: sc.parse(raw)))
     # one MuSig2 session object verified repeatedly (per-session caches)
     sks = [5 + seed, 7 + seed]
     pks = [bytes_from_point(mult(s)) for s in sks]
@@ -594,12 +606,41 @@ def shard_independence(ctx: Ctx) -> None:
             ctx.case(f"independence:{tag}", (tag, j, ctx.evaluations), nontrivial=True)
         ctx.stat(f"independence:{tag}")
 
+    def edit(v) -> bool:
+        """Spoil a mutable answer in place, as a caller walking, trimming or reusing its own copy would."""
+        if isinstance(v, list):
+            v.append(v[0] if v else 0)
+            v.reverse()
+            if len(v) > 1:
+                v.pop(0)
+                v[0] = v[0] + 1 if isinstance(v[0], int) and not isinstance(v[0], bool) else v[0]
+            return True
+        if isinstance(v, (dict, set)):
+            v.clear()
+            return True
+        if isinstance(v, bytearray):
+            v[:] = b"\xff" * (len(v) + 1)
+            return True
+        return False
+
     for rnd in range(ctx.params["rounds"]):
         if ctx.out_of_time():
             break
         order = list(range(len(battery)))
         r.shuffle(order)
         compare("shuffled", order)
+        # an answer edited by its caller, then the same question again
+        for j in order:
+            o = outcome(battery[j][1])
+            if o[0] == "ok" and edit(o[1]):
+                got = _answer(battery[j][1])
+                ctx.case("independence:after-the-caller-edited-an-answer", ("edit", j, ctx.evaluations))
+                ctx.stat("independence:after-the-caller-edited-an-answer")
+                if got != golden[j]:
+                    ctx.violation(f"answer-depends-on-history:{battery[j][0]}:a-caller-edited-an-earlier-answer",
+                                  f"{battery[j][0]} answered {str(got)[:120]} after a caller edited the list it had been given, {str(golden[j])[:120]} before",
+                                  {"call": battery[j][0], "situation": "the returned container is shared with a cache"})
+                compare("after-an-edited-answer", [x for x in order if battery[x][0].startswith(("derive-by-text", "der_path", "bip32"))][:12])
         for c in caches.values():
             c.cache_clear()
         compare("after-cache-clear", order[: len(order) // 2])
